@@ -160,13 +160,13 @@ func uopOf(e ast.Expr, ms methods) string {
 			}
 		case "cpu.rst":
 			if len(call.Args) == 1 {
-				if v, ok := intLit(call.Args[0]); ok {
+				if v, ok := constInt(call.Args[0]); ok {
 					return fmt.Sprintf("URst %d", v)
 				}
 			}
 		case "cpu.bit", "cpu.res", "cpu.set":
 			if len(call.Args) == 2 {
-				n, ok1 := intLit(call.Args[0])
+				n, ok1 := constInt(call.Args[0])
 				a := exprString(call.Args[1])
 				r, ok2 := regName[strings.TrimPrefix(a, "&")]
 				if ok1 && ok2 && strings.HasPrefix(a, "&") {
@@ -176,7 +176,7 @@ func uopOf(e ast.Expr, ms methods) string {
 			}
 		case "cpu.bitM", "cpu.resM", "cpu.setM":
 			if len(call.Args) == 1 {
-				if n, ok := intLit(call.Args[0]); ok {
+				if n, ok := constInt(call.Args[0]); ok {
 					k := map[string]string{"cpu.bitM": "UBitM", "cpu.resM": "UResM", "cpu.setM": "USetM"}[fn]
 					return fmt.Sprintf("%s %d", k, n)
 				}
@@ -240,7 +240,7 @@ func genDispatch() {
 			if ix, ok := lhs.(*ast.IndexExpr); ok {
 				base := exprString(ix.X)
 				base = strings.TrimPrefix(base, "cpu.")
-				idx, okI := intLit(ix.Index)
+				idx, okI := constInt(ix.Index)
 				if !okI {
 					fail("dispatch: non-literal index %s", exprString(lhs))
 					continue
@@ -264,8 +264,8 @@ func genDispatch() {
 						continue
 					}
 					c, okc := condName[exprString(call.Args[0])]
-					e, oke := intLit(call.Args[1])
-					l, okl := intLit(call.Args[2])
+					e, oke := constInt(call.Args[1])
+					l, okl := constInt(call.Args[2])
 					if !okc || !oke || !okl {
 						fail("dispatch: unrecognised early-exit entry %s", exprString(as.Rhs[0]))
 						continue
